@@ -3,6 +3,7 @@
 -/
 import NarseseModel
 import NarseseModel.Gen.Formats
+import NarseseModel.Gen.ReadmeGrammar
 set_option autoImplicit false
 
 namespace Narsese.Driver
